@@ -24,6 +24,7 @@ def check(run):
     run.attempt(prop, run, p, 'C04', TEXT_ASSERTS)
     run.attempt(exc, run, p, fc)
     run.attempt(perm, run, p, fc)
+    run.attempt(oracle, run, p, fc)
     run.attempt(rawremove, run, p, fc)
     run.attempt(stateless, run, p, fc)
     from .common import nocache_rule
@@ -205,6 +206,10 @@ def rawremove(run, p, fc):
                         run.ob('C04-RAWREMOVE', '%s::%s::%s' % (f.rel, f.short, norm(g.iter)[:40]), not bad and not bad2,
                                'removal is decided on %s, which %s' % (norm(g.iter)[:40], 'is the text as given' if not (bad or bad2) else 'has been normalised first'),
                                fn=f, node=x)
+    if n == 0 and any(o.rule == 'C04-ORACLE' for o in run.obs) and all(o.ok for o in run.obs if o.rule == 'C04-ORACLE'):
+        run.note('C04-RAWREMOVE', 'check_strings does not filter the removable lines itself: decided by C04-ORACLE (a remove-substring that '
+                                  'only matches with its blanks, under every stripping option)', fn=f)
+        return
     run.floor('C04-RAWREMOVE', n, 2)
 
 
@@ -230,3 +235,125 @@ def stateless(run, p, fc):
                '%s stores self.%s: state carried from one check to the next (a list edited in place between two checks would be '
                'served stale)' % (m.short, x.attr), fn=m, node=x)
     run.floor('C04-STATELESS', n, 15)
+
+
+# ---------------------------------------------------------------------------------------------
+# C04-ORACLE: check_strings evaluated against an independent statement of the comparison rule
+
+def _oracle(actual, expected, lstrip, rstrip, subs, pats, removes, maxperm, preprocess):
+    """The comparison rule as the property states it (written here, independently of the code)."""
+    import re
+    if preprocess:
+        actual, expected = preprocess(actual), preprocess(expected)
+    if actual and actual[-1] == '':
+        actual = actual[:-1]
+    if expected and expected[-1] == '':
+        expected = expected[:-1]
+    A = [l for l in actual if not any(r in l for r in removes or ())]
+    E = [l for l in expected if not any(r in l for r in removes or ())]
+
+    def nrm(s):
+        return s.strip() if lstrip and rstrip else s.lstrip() if lstrip else s.rstrip() if rstrip else s
+    if len(A) != len(E):
+        return False
+    bad = []
+    for a, e in zip(A, E):
+        if nrm(a) == nrm(e):
+            continue
+        if any(s in e for s in subs or ()):
+            continue
+        if any(re.search(p_, a) and re.search(p_, e) and re.sub(p_, '\0', a) == re.sub(p_, '\0', e) for p_ in pats or ()):
+            continue
+        bad.append((a, e))
+    if not bad:
+        return True
+    return len(bad) <= maxperm and sorted(a for a, _ in bad) == sorted(e for _, e in bad)
+
+
+def _text_cases():
+    """(name of the edit, actual lines, reference lines): a reference text and its near misses"""
+    ref = ['alpha', 'beta 12 ms', 'gamma ray', 'delta']
+    out = [('identical', list(ref), list(ref)),
+           ('both-empty', [], []),
+           ('one-line-changed', ['alpha', 'beta 12 ms', 'gamma ray', 'DELTA'], list(ref)),
+           ('digits-changed', ['alpha', 'beta 977 ms', 'gamma ray', 'delta'], list(ref)),
+           ('digits-and-text-changed', ['alpha', 'beta 977 s', 'gamma ray', 'delta'], list(ref)),
+           ('ignorable-line-changed', ['alpha', 'beta 12 ms', 'something else', 'delta'], list(ref)),
+           ('ignorable-text-only-in-actual', ['alpha', 'beta 12 ms', 'gamma ray', 'delta'], ['alpha', 'beta 12 ms', 'no marker here', 'delta']),
+           ('line-added', ref + ['epsilon'], list(ref)),
+           ('line-dropped', ref[:-1], list(ref)),
+           ('first-line-dropped', ref[1:], list(ref)),
+           ('two-lines-swapped', ['alpha', 'gamma ray', 'beta 12 ms', 'delta'], list(ref)),
+           ('three-lines-rotated', ['beta 12 ms', 'gamma ray', 'alpha', 'delta'], list(ref)),
+           ('swapped-and-one-changed', ['alpha', 'gamma ray', 'beta 12 ms', 'DELTA'], list(ref)),
+           ('leading-blanks-added', ['  alpha', 'beta 12 ms', 'gamma ray', 'delta'], list(ref)),
+           ('trailing-blanks-added', ['alpha', 'beta 12 ms  ', 'gamma ray', 'delta\t'], list(ref)),
+           ('blanks-inside-changed', ['alpha', 'beta  12 ms', 'gamma ray', 'delta'], list(ref)),
+           ('removable-line-added', ['alpha', 'SKIP me', 'beta 12 ms', 'gamma ray', 'delta'], list(ref)),
+           ('removable-lines-differ', ['alpha', 'SKIP one', 'beta 12 ms', 'gamma ray', 'delta'], ['alpha', 'beta 12 ms', 'SKIP two', 'SKIP three', 'gamma ray', 'delta']),
+           ('removable-marker-has-blanks', ['alpha', '  SKIP', 'beta 12 ms', 'gamma ray', 'delta'], list(ref)),
+           ('removable-only-with-its-blanks', ['alpha', '  pad  ', 'beta 12 ms', 'gamma ray', 'delta'], ['alpha', 'beta 12 ms', 'gamma ray', 'pad', 'delta', '  pad ']),
+           ('removal-evens-out-the-raw-line-counts', ['alpha', 'SKIP one', 'beta 12 ms', 'gamma ray'], list(ref)),
+           ('removal-evens-out-raw-counts-reference-side', list(ref), ['alpha', 'beta 12 ms', 'gamma ray', 'SKIP x']),
+           ('trailing-empty-element', ref + [''], list(ref)),
+           ('trailing-empty-both', ref + [''], ref + ['']),
+           ('empty-line-inside', ['alpha', '', 'beta 12 ms', 'gamma ray', 'delta'], list(ref)),
+           ('unicode-changed', ['alpha', 'beta 12 ms', 'gamma ray', 'délta'], ['alpha', 'beta 12 ms', 'gamma ray', 'délta']),
+           ('comment-line-added', ['# note', 'alpha', 'beta 12 ms', 'gamma ray', 'delta'], list(ref)),
+           ('actual-empty', [], list(ref)),
+           ('reference-empty', list(ref), [])]
+    return out
+
+
+def oracle(run, p, fc):
+    import itertools
+    from ..pyeval import Interp, Obj, Unsupported, Raised, pure_os, pure_sys
+    cases = _text_cases()
+    run.rule('C04-ORACLE', 'check_strings agrees with an independent statement of the comparison rule (drop lines holding a '
+                           'remove-substring, as given; strip per line as asked; same number of lines; each pair equal, or the '
+                           'reference line holds an ignore-substring, or the pair differs only inside ignore-pattern matches; or '
+                           'the differing lines are a permutation within the permitted number) on %d (actual, reference) pairs - '
+                           'identical text and its near misses: one line changed, added, dropped, swapped, blanks, removable and '
+                           'ignorable lines, trailing empty element, unicode - under every combination of lstrip, rstrip, '
+                           'ignore_substrings, ignore_patterns, remove_lines, max_permutation_cases (and, in the thorough tier, a preprocessing function); '
+                           'decided by evaluating check_strings itself' % len(cases))
+    f = fc.methods['check_strings']
+
+    def drop_comments(lines):
+        return [l for l in lines if not l.startswith('#')]
+    drop_comments._pyeval_model = True
+    n = 0
+    for name, actual, expected in cases:
+        bad = []
+        for lstrip, rstrip, subs, pats, removes, maxperm, pre in itertools.product(
+                (False, True), (False, True), (None, ['gamma']), (None, [r'\d+']), (None, ['SKIP', '  pad ']), (0, 3), ((None, drop_comments) if run.tier == 'thorough' or name == 'comment-line-added' else (None,))):
+            I = Interp(p)
+            I.safe_modules = {'re'}
+            I.extra_names.update({'os': pure_os(), 'sys': pure_sys()})
+
+            def hook(m, args, kwargs, selfobj):
+                if m.name == 'add_failures':
+                    return True, None
+                return False, None
+            I.on_call = hook
+            o = Obj(fc)
+            o.attrs.update(print_fn=None, verbose=False, tmp_dir='/nowhere')
+            kw = dict(lstrip=lstrip, rstrip=rstrip, ignore_substrings=subs, ignore_patterns=pats, remove_lines=removes,
+                      max_permutation_cases=maxperm, preprocess=pre, create_temporaries=False)
+            try:
+                r = I.call(f, [list(actual), list(expected)], kw, selfobj=o)
+                got = (r.failures == 0)
+            except Raised as e:
+                got = 'raises %s' % e
+            except Unsupported as e:
+                raise AnalysisError('check_strings is not evaluable: %s' % e)
+            n += 1
+            want = _oracle(list(actual), list(expected), lstrip, rstrip, subs, pats, removes, maxperm, pre)
+            if got is not want:
+                bad.append(({k: (v if k != 'preprocess' else bool(v)) for k, v in kw.items() if v and k != 'create_temporaries'}, got, want))
+        run.ob('C04-ORACLE', 'text:%s' % name, not bad,
+               '%s: %s' % (name, 'agrees with the rule under all option combinations' if not bad else
+                           '%d option combinations disagree, e.g. %r: check_strings %s, the rule says %s (actual %r, reference %r)' % (
+                               len(bad), bad[0][0], 'passes' if bad[0][1] is True else ('fails' if bad[0][1] is False else bad[0][1]),
+                               'pass' if bad[0][2] else 'fail', actual, expected)), fn=f)
+    run.floor('C04-ORACLE', n, 1800)
